@@ -1,5 +1,5 @@
 """The fixed pipeline every check runs (DESIGN.md §2)."""
-import os, sys, json, re, subprocess, time, hashlib, shutil, filecmp
+import os, sys, json, re, subprocess, time, hashlib, shutil, filecmp, glob
 import run as R
 
 VERIF = "/verif"
@@ -30,6 +30,11 @@ def regen():
     rebuilds exactly what depends on a changed definition). Returns (exit status, meta dict)."""
     tmp = BUILD + "/gen-tmp-%d" % os.getpid()
     os.makedirs(tmp, exist_ok=True)
+    # the translator itself is rebuilt when it is missing or older than its sources (setup.sh builds it first)
+    srcs = glob.glob(VERIF + "/mvtrans/src/*.rs") + [VERIF + "/mvtrans/Cargo.toml"]
+    if not os.path.exists(MVTRANS) or any(os.path.getmtime(f) > os.path.getmtime(MVTRANS) for f in srcs):
+        e = dict(ENV); e["CARGO_TARGET_DIR"] = BUILD + "/mvtrans-target"
+        sh(["cargo", "build", "--offline", "--release"], cwd=VERIF + "/mvtrans", env=e)
     rc, out = sh([MVTRANS, REPO + "/src", tmp])
     meta = {}
     try:
